@@ -168,17 +168,24 @@ func (b *CircuitBreaker) Metrics() Metrics {
 // tryAcquire reports whether a call may proceed and whether it holds a
 // half-open token that must be released once the call completes.
 func (b *CircuitBreaker) tryAcquire() (allowed, acquired bool) {
-	state := b.State()
-	if state == Closed {
+	if b.State() == Closed {
 		return true, false
 	}
 
-	if state == Open {
+	// not closed: decide and act under the transition lock so that the state
+	// read, the timeout check, the half-open switch and the probe slot are one step
+	b.mu.Lock()
+	defer b.mu.Unlock()
+
+	switch State(b.state.Load()) {
+	case Closed:
+		return true, false
+	case Open:
 		if b.opts.clock().UnixNano() < b.openUntil.Load() {
 			return false, false
 		}
 
-		b.toHalfOpen()
+		b.transitionLocked(HalfOpen)
 	}
 
 	select {
@@ -209,6 +216,11 @@ func (b *CircuitBreaker) invoke(ctx context.Context, fn func(context.Context) (a
 // record adds an outcome to the rolling window and re-evaluates the state using
 // the totals observed under the same lock acquisition.
 func (b *CircuitBreaker) record(success bool) {
+	// evaluation and transition form one step: a decision is never applied to a
+	// state or a window that other callers have moved on from
+	b.mu.Lock()
+	defer b.mu.Unlock()
+
 	now := b.opts.clock().UnixNano()
 	succ, fail := b.buckets.add(now, success)
 
@@ -224,13 +236,13 @@ func (b *CircuitBreaker) record(success bool) {
 	}
 
 	if float64(fail)/float64(total) >= b.opts.failureRate {
-		b.toOpen()
+		b.transitionLocked(Open)
 		return
 	}
 
 	// enough samples with an acceptable failure rate: recover if probing
-	if b.State() == HalfOpen {
-		b.toClosed()
+	if State(b.state.Load()) == HalfOpen {
+		b.transitionLocked(Closed)
 	}
 }
 
@@ -283,6 +295,11 @@ func (b *CircuitBreaker) transitionTo(target State) bool {
 	b.mu.Lock()
 	defer b.mu.Unlock()
 
+	return b.transitionLocked(target)
+}
+
+// transitionLocked is transitionTo for callers that hold b.mu.
+func (b *CircuitBreaker) transitionLocked(target State) bool {
 	if State(b.state.Load()) == target {
 		return false
 	}
